@@ -12,7 +12,7 @@ checks = {
    note="Bounded: depth/grants/alphabet as reported in evidence.bounds. Trusted: the harness drivers (HTTP round trips through httptest), the overlay clock rewrite, the deterministic random source; reference MemoryStore behind a logging proxy."),
  "C03": dict(level="model_checking", engine="SEQ", ref="DESIGN.md §5 C03",
    technique="exhaustive enumeration of all redemption-attempt sequences up to a depth on the real token endpoint, judged by a reference predicate",
-   text="All sequences of <=3 (quick) / <=5 (thorough) redemption attempts drawn from 7 attempt kinds on one code, for every enforcement x plain x client type x flow x binding configuration, run on the real provider; tokens may only be issued for a well-formed verifier that transforms to the bound challenge under the bound method.",
+   text="All sequences of <=4 (quick) / <=5 (thorough) redemption attempts drawn from 7 attempt kinds on one code, for every enforcement x plain x client type x flow x binding configuration, run on the real provider; tokens may only be issued for a well-formed verifier that transforms to the bound challenge under the bound method.",
    note="One-sided oracle exactly as the statement; verifier alphabet is the 7 listed kinds; PKCE parameters other than those listed are out of the alphabet."),
  "C04": dict(level="model_checking", engine="HIST", ref="DESIGN.md §5 C04",
    technique="explicit-state BFS over API histories of the real provider with a lock-step reference model (refresh chains, replay of any generation), global state deduplication",
@@ -46,11 +46,11 @@ checks.update({
    note="Strings decoding to the genuine bytes are don't-care; entropy is checked structurally (crypto/rand quality assumed)."),
  "C12": dict(level="exploration", engine="ENUM", ref="DESIGN.md §5 C12",
    technique="exhaustive enumeration of all (registered, requested) string pairs over a segment alphabet and of a URL grid against documented semantics (two-sided), plus the full flow x strategy x request-family product on the real provider (one-sided)",
-   text="Part 1 compares the three scope strategies and two audience strategies with an independent transcription of the documentation on every pair of dotted strings over {a,b,ab,*,empty} up to 3 (quick) / 4 (thorough) segments and every pair of a 72-URL grid. Part 2 runs 11 flows x 3 scope strategies x 2 audience strategies x 12 scope families x 8 audience families on a fresh provider: uncovered requests must issue nothing and token scope/audience must stay within the grant.",
+   text="Part 1 compares the three scope strategies and two audience strategies with an independent transcription of the documentation on every pair of dotted strings over {a,b,ab,*,empty} up to 5 (quick) / 6 (thorough) segments and every pair of a 72-URL grid. Part 2 runs 11 flows x 3 scope strategies x 2 audience strategies x 12 scope families x 8 audience families on a fresh provider: uncovered requests must issue nothing and token scope/audience must stay within the grant.",
    note="Documentation-undefined inputs (empty segments absorbed by a trailing wildcard, host case) are don't-care."),
  "C16": dict(level="model_checking", engine="SEQ", ref="DESIGN.md §5 C16",
    technique="exhaustive enumeration (iterative deepening) of all operation sequences up to a depth over <=2 device flows on the real provider with a lock-step model, for the reference store and a contract-following store",
-   text="Every sequence of device_auth / accept / accept-with-replaced-session / reject / poll (right, wrong, wrong client with body client_id; genuine, forged random part, forged with the user-code signature) / advance up to depth 5 (one flow) and 4 (two flows) [7/6 thorough], on both stores; tokens only for accepted, unexpired, unconsumed flows polled by the right client with the genuine code; error classes where exactly one clause applies; replay on the contract store must leave the first pair inactive; codes reach storage only as signatures; overlapping polls of one device code (API-phase interleavings) yield tokens at most once.",
+   text="Every sequence of device_auth / accept / accept-with-replaced-session / reject / poll (right, wrong, wrong client with body client_id; genuine, forged random part, forged with the user-code signature) / advance up to depth 6 (one flow) and 5 (two flows) [8/6 thorough], on both stores; tokens only for accepted, unexpired, unconsumed flows polled by the right client with the genuine code; error classes where exactly one clause applies; replay on the contract store must leave the first pair inactive; codes reach storage only as signatures; overlapping polls of one device code (API-phase interleavings) yield tokens at most once.",
    note="randx user-code randomness cannot be intercepted; checked for distinctness only."),
 })
 
@@ -86,7 +86,7 @@ checks.update({
  "C13": dict(level="exploration", engine="ENUM", ref="DESIGN.md §5 C13",
    technique="exhaustive enumeration of five product groups (registration x request) against the real authorization endpoint, one-sided acceptance conditions; issued codes carried to the token endpoint",
    text="G1 response types (8 registrations x 4 grant sets x public x every ordered list of <=3 tokens incl. duplicates/unknown/empty x openid), G2 response modes, G3 state/nonce lengths around the threshold for two entropy settings, G4 redirect_uri presence x openid x flows x grant sets, G5 request objects (14 variants: registered/other/unknown keys, RS/ES/PS/HS/none, tampered, request_uri registered/unregistered/unfetchable/both x 6 registered algorithms): an accepted request satisfies every condition of the statement; access and ID tokens never appear in the query; state is echoed on every redirect; a client without authorization_code never redeems a code; request-object parameters are honoured only for registered key+algorithm; G6: request objects verified through jwks_uri with the real fetcher and cache (look-alike URIs of two tenants).",
-   note="Cross terms between groups are not covered. Don't-care: hybrid code+id_token ID token without implicit grant; unsigned request object when no algorithm is registered."),
+   note="G7 covers the cross terms of G1-G4 on three registrations. Don't-care: hybrid code+id_token ID token without implicit grant; unsigned request object when no algorithm is registered."),
 })
 
 checks.update({
@@ -106,11 +106,11 @@ checks.update({
 checks.update({
  "C18": dict(level="fault_enumeration", engine="FAULT", ref="DESIGN.md §5 C18",
    technique="exhaustive storage-fault and crash-point enumeration on the real provider: every storage call of every flow x error kind, every crash point, fault pairs, on a plain and a transactional (real rollback) proxy store, followed by retry and attacker replays",
-   text="For 20 flows the storage-call trace of the target request is recorded; every call index x {generic, not-found, inactive, serialization conflict} (BeginTX/Commit/Rollback included), a crash before every call, and pairs (first fault anywhere, second within the next 6 calls) are injected. A failed request carries no token/code; serialization conflicts on refresh are retryable; begin is matched by exactly one commit or rollback and never followed by a commit after a failed write; after a rolled-back failure the code/token records equal the records before the request and the holder's retry succeeds; attacker variants (foreign client, missing/wrong verifier, replay) stay refused; a revocation that reports success is effective.",
+   text="For 20 flows the storage-call trace of the target request is recorded; every call index x {generic, not-found, inactive, serialization conflict} (BeginTX/Commit/Rollback included), a crash before every call, and pairs (first fault anywhere, second of every kind at every later call, or a crash at every later point; triples of generic failures in thorough) are injected. A failed request carries no token/code; serialization conflicts on refresh are retryable; begin is matched by exactly one commit or rollback and never followed by a commit after a failed write; after a rolled-back failure the code/token records equal the records before the request and the holder's retry succeeds; attacker variants (foreign client, missing/wrong verifier, replay) stay refused; a revocation that reports success is effective.",
    note="Sentinel answers (not-found / inactive) at Get*/Revoke* calls are another store state, not a failure (don't-care). Record equality ignores session expiry fields. The transactional store is context-sensitive: a write issued during an open transaction with a context that does not carry it survives the rollback."),
  "C20": dict(level="exploration", engine="ENUM+FAULT", ref="DESIGN.md §5 C20",
    technique="exhaustive enumeration of error x hostile text x format x debug x writer with re-parsing of the bytes written; scan of every storage call of every flow for usable secrets; storage-error text injection at every storage call",
-   text="38 errors (all exported RFC errors + a plain Go error) x hint/debug text from 16 hostile fragments (pairs in thorough) x legacy/new format x debug exposure x 9 writers: JSON re-parsed, redirects re-parsed (no injected parameter, state round-trips, no CR/LF in headers), form_post pages tokenised (only the expected inputs, no injected element), status matches code, debug detail only when enabled, no-store/no-cache everywhere. Storage: 16 flows x HMAC/JWT — no key or stored form value equals or contains a client secret, password, PKCE verifier, assertion or complete live code/token. A recognisable storage error text injected at every storage call of 19 flows never reaches the client.",
+   text="38 errors (all exported RFC errors + a plain Go error) x hint/debug text from 16 hostile fragments (pairs in quick, triples in thorough) x legacy/new format x debug exposure x 9 writers: JSON re-parsed, redirects re-parsed (no injected parameter, state round-trips, no CR/LF in headers), form_post pages tokenised (only the expected inputs, no injected element), status matches code, debug detail only when enabled, no-store/no-cache everywhere. Storage: 16 flows x HMAC/JWT — no key or stored form value equals or contains a client secret, password, PKCE verifier, assertion or complete live code/token. A recognisable storage error text injected at every storage call of 19 flows never reaches the client.",
    note="Known findings: OpenID Connect sessions keyed by the complete authorization code (storage contract). The user password necessarily reaches Authenticate."),
 })
 
